@@ -169,6 +169,8 @@ func (s *Store[H]) deleteParallel(ctx context.Context, from, to uint64) (uint64,
 			last.err = s.deleteSingle(workerCtx, height, onDelete)
 			if errors.Is(last.err, datastore.ErrNotFound) {
 				last.missing++
+				// a missing header is not a failure, don't let it be reported as the worker's result
+				last.err = nil
 				log.Debugw("attempt to delete header that's not found", "height", height)
 			} else if last.err != nil {
 				break
